@@ -1321,4 +1321,41 @@ theorem syncCancel_lookup {env : DEnv} {s : DState} (h : DealerInv s) {c : ReqId
   exact ⟨i, v, hv, hvi, hvc, hve, hb, hf, fun mode reason errArgs => syncCancel_pending mode reason errArgs hc hb hf⟩
 
 
+/-- `syncCancel` on a pending, not yet cancelled call, by cases on "can the callee be interrupted" and the mode -/
+theorem syncCancel_live {env : DEnv} {s : DState} (h : DealerInv s) {c : ReqId} {v : Invk} (hv : v ∈ s.d.invs)
+    (hvc : v.callId = c) (hcan : v.canceled = false) (mode reason : String) (errArgs : List WVal) :
+    syncCancel env s c.sess c.req mode reason errArgs =
+      if canInterrupt env v mode then
+        if mode = CancelModeKill then { st := cancelMark s v, sends := [interruptOf v v.id mode reason] }
+        else { st := { cancelMark s v with d := (cancelMark s v).d.forget c v.id }
+               sends := [interruptOf v v.id mode reason, callErr c [] reason errArgs []] }
+      else { st := { cancelMark s v with d := (cancelMark s v).d.forget c v.id }
+             sends := [callErr c [] reason errArgs []] } := by
+  have hc : c ∈ s.d.calls := hvc ▸ (h.call.inv_call hv).1
+  obtain ⟨i, v', hv', hvi, hvc', _, hb, hf, hsc⟩ := syncCancel_lookup (env := env) h hc
+  have : v' = v := nodup_map_inj h.call.invCalls hv' hv (hvc'.trans hvc.symm)
+  subst this
+  subst hvi
+  rw [hsc, if_neg (by simp [hcan]), cancelOut_eq]
+
+/-- `syncCancel` has no effect on a call that is already cancelled (kill mode, waiting for the callee) -/
+theorem syncCancel_canceled {env : DEnv} {s : DState} (h : DealerInv s) {c : ReqId} {v : Invk} (hv : v ∈ s.d.invs)
+    (hvc : v.callId = c) (hcan : v.canceled = true) (mode reason : String) (errArgs : List WVal) :
+    syncCancel env s c.sess c.req mode reason errArgs = { st := s } := by
+  have hc : c ∈ s.d.calls := hvc ▸ (h.call.inv_call hv).1
+  obtain ⟨i, v', hv', hvi, hvc', _, hb, hf, hsc⟩ := syncCancel_lookup (env := env) h hc
+  have : v' = v := nodup_map_inj h.call.invCalls hv' hv (hvc'.trans hvc.symm)
+  subst this
+  rw [hsc, if_pos hcan]
+
+/-- the invocation of a cancelled call is still stored, with `canceled` set -/
+theorem cancelMark_inv {s : DState} (h : DealerInv s) {v : Invk} (hv : v ∈ s.d.invs) :
+    DealerInv (cancelMark s v) ∧ ({ v with canceled := true } : Invk) ∈ (cancelMark s v).d.invs := by
+  refine ⟨(h.setInv (v' := { v with canceled := true }) hv rfl rfl).cancelTimer _, ?_⟩
+  rw [cancelMark_invs]
+  unfold Dealer.setInv
+  simp only
+  exact (mem_map_update (f := fun x : Invk => x.id) (u := fun _ => { v with canceled := true })).2
+    (Or.inr ⟨v, hv, rfl, rfl⟩)
+
 end Nexus.L2
